@@ -17,6 +17,14 @@ CHECKS = {
    technique="TLC checks add_months' truncating year/remainder carry logic against total-months arithmetic for every start month x offset x roll kind (MC_Months) and DateArith on every day 1970-2200; recorded add_months / get_roll / get_imm / get_eom / is_leap_year results validated by TLC",
    text="Exhaustive over the discrete structure (month, offset remainder and sign, roll kind, month length, leap years) in the model; every month of 1970-2200 and a covering set of (start, offset, roll) cases through the real functions, judged by TLC.",
    note="Offsets beyond +-1300 months are not explored; the Gregorian arithmetic of DateArith.tla is self-checked on every day of the range and trusted beyond."),
+ "C06": dict(engine="named", cat="model_checking", design="5/C06",
+   technique="TLA+ grammar model (MC_NamedCal: tokens appended one at a time, split-based parser = declarative grammar) model-checked by TLC; every TLC-generated token sequence replayed into NamedCal::try_new in random letter case and judged by TLC date-for-date against the union of individually built members; explicit unions and ==-pairs recorded and validated (Trace_NamedCal)",
+   text="Exhaustive over name strings up to the model's length bound (outcome class and behaviour), seeded over explicit unions and equality pairs with the differing day placed at the range boundaries; TLC is the judge of every recorded observation.",
+   note="Probe windows (3 x 400 days) rather than every date for names; equality pairs are projected by diffing the two real objects over 1970-2200; member calendars' own is_bus_day is trusted here (C07 ties the built-in ones to their rules)."),
+ "C07": dict(engine="named", cat="model_checking", design="5/C07",
+   technique="Published holiday rules transcribed into NamedCal.tla; TLC checks rule-level theorems (fed = nyc minus Good Friday, no spill across years) for 1970-2200 and validates the real tables year by year (14 names x 231 years) and the nine shipped fixing histories as publication-by-publication histories (Trace_Fixings)",
+   text="Exhaustive over the data: every weekday of 1970-2200 for every built-in name is compared by TLC with the published rules (exactly for 7 calendars, one-sided for 5, empty for all/bus), every documented name is resolved directly and through NamedCal, and each fixing history is replayed as a behaviour of the calendar.",
+   note="The rule transcription in NamedCal.tla (from named/*_script.py and the RULES constants) is the trusted oracle; weekend entries of the tables are not judged (the property is about weekdays)."),
 }
 
 PENDING = {
@@ -42,6 +50,8 @@ PENDING = {
 ENGINES = [
  dict(name="cal", path="spec/Calendar.tla spec/DateArith.tla spec/MC_Calendar.tla spec/MC_Months.tla spec/Trace_Calendar.tla harness/src/cal.rs lib/checks_cal.py",
       serves_properties=["C04", "C05", "C08"], kind_free_text="TLA+ model checked by TLC + trace validation of the real crate's DateRoll calls"),
+ dict(name="named", path="spec/NamedCal.tla spec/MC_NamedCal.tla spec/Trace_NamedCal.tla spec/Trace_Fixings.tla harness/src/named.rs lib/checks_named.py",
+      serves_properties=["C06", "C07"], kind_free_text="TLA+ grammar/rule model checked by TLC + validation of recorded observations and fixing histories"),
 ]
 
 
